@@ -23,6 +23,9 @@ claimed = {
  "C05": std("AMF0 trees (shapes forked, contents symbolic: all 2^64 number bit patterns incl. NaN payloads/-0, booleans, string bytes) marshal to exactly Size() bytes, unmarshal to an equal tree in key order and re-marshal to the same bytes; for every byte string up to the bound that decodes, Size() equals the bytes consumed as counted by an independent grammar-level decoder, including repeated/empty keys and trailing bytes."),
  "C06": std("Library encodings are decoded to the same value by a reference decoder written from the AMF0 specification and reference encodings by the library; all 256 markers: supported ones give the right type, all others an error. One recorded known finding (keyed strict arrays)."),
  "C20": std("Rate meters: a window samples iff a full window passed (integer/time logic by bit-vector queries), slower windows only after faster ones, rate bit-exactly equal to the IEEE evaluation of growth*1000/window_ms and proved finite and non-negative for every counter value (stall, backwards, wrap) in the FP theory; average and kbit/s scaling likewise; reading before Start panics."),
+ "C07": ("For every byte string up to the stated length given to each claimed decoder, every panic site (index, slice bounds, nil dereference, make size, division, type assertion) is shown infeasible by the solver on every path, and every path terminates within its step budget (a budget overrun is replayed natively under a watchdog and reported as a stall only if the real code hangs); enum helpers are total over their whole underlying type. Claimed for the byte-level decoders only: JWS/JWE/JWK/OCSP parsing needs encoding/json, encoding/asn1, reflection and math/big, which the engine cannot encode, and no complexity (linear-time) claim is made.",
+         "Subset and bounds in evidence.coverage.bounds and assumptions. " + TRUST,
+         "bounded symbolic execution of go/ssa + SMT: panic-site infeasibility queries over arbitrary input bytes"),
  "C08": ("Fault enumeration decided per path by the solver: every cut offset of generated RTMP sessions and FLV files and every failing write call is a forked fault position; on each, the operation returns a non-nil error whose errors.Cause is exactly the transport's error, the items returned before are exactly those completely transferred (contents symbolic), and nothing incomplete is returned with a nil error; the errors package keeps cause and message chain for every nesting of its constructors.",
          "Bounds per harness are in evidence.coverage.bounds. " + TRUST,
          "bounded symbolic execution of go/ssa + SMT with exhaustive fault-position forking"),
